@@ -111,6 +111,17 @@ Theorem C14_identity_ci : forall (S K N H : Type) dynamic_choice builtin_sample 
 Proof. exact identity_ci. Qed.
 Print Assumptions C14_identity_ci.
 
+(* an integer-valued metric (e.g. confusion-matrix counts) with bootstrap_method = "bca" — the default of
+   BootstrapConfig — makes Scores.bootstrap_ci raise (C13_int_bca_refuted): the clause "bootstrap_ci equals the
+   documented CI formula applied to those replicates" is refuted for such metrics. *)
+Theorem C14_int_metric_bca_refuted : forall (S K N H : Type) dynamic_choice builtin_sample getattr_type (Phi PhiInv pow15 : Q -> Q) yshape
+    (self : S) (metric : metric_arg S K (list rate) N) alpha (cfg : config S) (hist : nat -> H) (kw : K),
+  bootstrap_method cfg = MBca ->
+  bootstrap_ci_m S K (list rate) N H _ dynamic_choice builtin_sample getattr_type (utils_ci_dt Phi PhiInv pow15 DInt yshape)
+                 self metric alpha cfg hist kw = Err.
+Proof. exact int_metric_bca_raises. Qed.
+Print Assumptions C14_int_metric_bca_refuted.
+
 (* reproducibility: results are a function of the arguments and of the RNG draw histories of the calls made;
    equal histories (same global seed, same call sequence) give equal results *)
 Theorem C14_deterministic_metric : forall (S K V N H : Type) dynamic_choice builtin_sample getattr_type
